@@ -186,3 +186,16 @@ class RefServer(object):
             os.waitpid(self.pid, 0)
         except Exception:
             pass
+
+
+def progress(fd, obj):
+    """write a progress line on the world's result pipe (read by the zygote;
+    the last one is attached to a timeout / crash report)"""
+    import os
+
+    if fd is None:
+        return
+    data = (json.dumps(obj) + "\n").encode()
+    off = 0
+    while off < len(data):
+        off += os.write(fd, data[off : off + 65536])
